@@ -88,10 +88,12 @@ CHECKS.update({
  'C09': dict(
    text=('Theorem about the literal model of ParseLoadFile (model/Load.v): for EVERY layout style of the canonical load-file text (letter case chosen per character, blanks or tabs, LF or CR-LF, comment / blank / ;name lines '
          'between lines, a missing final newline, fields printed unsigned or signed), every core size 1..2^63, both dialects, every instruction form with fields below the core size and every entry point, the reader returns '
-         'exactly the instructions and entry point (C09_round_trip_partial); and what the reader accepts re-prints and re-reads to itself. PARTIAL: the assembler half (CompileWarrior on the same text) is not proved '
-         '(the full statement is kept as C09_full_statement); it is decided on every run by the correspondence: gmars\' ParseLoadFile and CompileWarrior on extracted renderings of generated warriors, against the warrior and against the extracted models.'),
-   design_ref='DESIGN.md 5 C09', note=NOTE_STD + ' The assembler half of the round trip is covered by differential testing only.',
-   technique='Coq round-trip proof for the load-file reader over all layout styles (chunk normal form of a line, induction over lines) + per-run two-stage correspondence for reader and assembler'),
+         'exactly the instructions and entry point (C09_round_trip_partial); and what the reader accepts re-prints and re-reads to itself. The assembler half is a theorem for the canonical layout itself '
+         '(C09_assembler_reads_canonical_partial: compile_warrior on canon_print - one explicit instruction per line, single blanks, LF, ORG first / END last, fields signed or unsigned - returns the warrior; end to end through the models of lexer, symbol scanner, parser and compiler, every warrior, both dialects, core sizes up to 2^31). '
+         'PARTIAL: the assembler half under every layout style (comments, blank lines, CR-LF, tabs, letter case, missing final newline) is not proved (C09_full_statement); it is decided on every run by the correspondence: '
+         'gmars\' ParseLoadFile and CompileWarrior on extracted renderings (styled and canonical) of generated warriors, against the warrior and against the extracted models.'),
+   design_ref='DESIGN.md 0.2 and 5 C09', note=NOTE_STD + ' The assembler half of the round trip under layout variations is covered by differential testing only.',
+   technique='Coq round-trip proof for the load-file reader over all layout styles (chunk normal form of a line, induction over lines); Coq end-to-end proof for the assembler on the canonical layout (lexeme decomposition, symbolic execution of the parser state machine line by line, compile step) + per-run two-stage correspondence for reader and assembler'),
 })
 
 CHECKS.update({
@@ -141,9 +143,10 @@ CHECKS.update({
    design_ref='DESIGN.md 5 C03', note=NOTE_STD + ' The end-to-end statement is covered by differential testing against the by-construction meaning; only compile-stage facts are theorems.',
    technique='Coq lemmas on the compile stage (finite table sweeps lifted by lemma, token-wise characterisation of the substitution pass, label-offset arithmetic) + per-run two-stage differential correspondence against an independent meaning function'),
  'C08': dict(
-   text=('PARTIAL. Proved on the literal model of the expander state machine (model/ForExpand.v), for every stream, label list and count: the body is sent count times with the counter replaced by 1..count (nothing for count 0) and all other tokens - block labels included - kept; '
-         'from the ROF line on, whatever state was reached, exactly the unrolled body is sent and then the rest of the program is copied unchanged up to EOF; on the FOR line the count is the value of the expression over the pre-scanned EQU symbols, the name before FOR is the counter, '
-         'earlier names are block labels, which keep their names and are sent exactly once, immediately before the first instruction of the body. NOT proved: collection of the body with nesting depth, copying of the lines before the block, the repeat-until-no-FOR driver and the composition into '
+   text=('PARTIAL. Proved on the literal model of the expander state machine (model/ForExpand.v), for every stream, label list and count: the body is sent count times with the counter replaced by 1..count (nothing for count 0) and all other tokens kept; '
+         'from the ROF line on (also when it is the last line and lacks a newline), whatever state was reached, exactly the block is sent - first iteration with the labels written before the counter standing in front of the body line found for them, iterations 2..count plain, with a count below one only the labels - and then the rest of the program is copied unchanged up to EOF; '
+         'on the FOR line the count is the value of the expression over the pre-scanned EQU symbols and the predefined constants, the name before FOR is the counter, earlier names are block labels, which keep their names; their place is the first line of the body itself that is an instruction or the header of a nested block; a colon after a body label is dropped. '
+         'That a pass and the pass driver always end is part of C05. NOT proved: collection of the body with nesting depth, copying of the lines before the block, the repeat-until-no-FOR driver and the composition into '
          'CompileWarrior(p) = CompileWarrior(unroll(p)) (kept as C08_full_statement). That statement is decided on every run by the correspondence: generated programs (blocks in sequence, nesting to 3, counts 0..6 from literals and EQUs, counters in inner/outer expressions, block labels) and their extracted unrollings '
          'assembled by gmars and by the extracted model, compared with each other and with the extracted meaning.'),
    design_ref='DESIGN.md 5 C08', note=NOTE_STD + ' The end-to-end unrolling equality is covered by differential testing; only the unrolling arithmetic and the ROF / FOR-line phases of the state machine are theorems.',
